@@ -1353,3 +1353,10 @@ func (pi PhiInstance) Value(v ssa.Value) ssa.Value {
 	}
 	return v
 }
+
+// ArgValue: the argument handed in for parameter p at the call that created this context (nil at the root or when p is
+// not a parameter of the context's function).
+func (c *FCtx) ArgValue(p *ssa.Parameter) ssa.Value {
+	_, v := argOf(c, p)
+	return v
+}
